@@ -71,7 +71,7 @@ RTOL, ATOL = 1e-10, 1e-12
 S0 = 0.05  # revolutions: start-up floor of the accumulated-error model
 MU = K.MU
 METHODS = ("RK45", "DOP853")
-HANG_S = 120
+HANG_S = 240
 
 # Allowed multiples of the error unit.  Calibration on the unchanged tree (seed 0..3 thorough-sized sweeps,
 # see worst_ratio_* in the evidence): worst observed ratio -> allowed
@@ -219,8 +219,16 @@ def _propagate(ctx, spec, t0, t2, x, rel, w, mon, ttype="float", events=None):
     return None if y is None else np.asarray(y, dtype=float)
 
 
-def _unit(x0, dt, dense=False):
-    """Error unit (km, km/s), revolutions, eccentricity of state x0 over dt seconds (dense: interpolated output)."""
+SRP_P = 4.56e-9  # km/s^2 per (m^2/kg): solar radiation pressure at 1 AU, the size of the eclipse kink in the force
+
+
+def _unit(x0, dt, dense=False, spec=None):
+    """Error unit (km, km/s), revolutions, eccentricity of state x0 over dt seconds.
+
+    dense: the value comes from solve_ivp's interpolant (t_eval / event root), whose error does not shrink with dt.
+    spec with srp: the cannonball SRP model switches on/off across the Earth's shadow (penumbra of a few seconds),
+    which an adaptive step of length h ~ P/20 straddles with an error of about da*h^2 that its estimator cannot see.
+    """
     x0 = np.asarray(x0, dtype=float)
     a = K.sma(x0, MU)
     e = float(np.linalg.norm(K.ecc_vector(x0, MU)))
@@ -229,6 +237,10 @@ def _unit(x0, dt, dense=False):
     nrev = abs(dt) / per
     ur = RTOL * a * ((S0 + nrev) ** 2 + (1.0 if dense else 0.0)) / (1.0 - e)
     uv = ur * math.sqrt(MU / (a * (1.0 - e)) ** 3)
+    if spec is not None and spec.get("srp") and spec.get("ratio", 0.0) > 0.0:
+        da, h = SRP_P * float(spec["ratio"]), per / 20.0
+        ur += da * h * h * (1.0 + nrev)
+        uv += da * h * (1.0 + nrev)
     _LAST[:] = [nrev, e]
     return ur, uv, nrev, e
 
@@ -251,7 +263,7 @@ def _close(ctx, name, ratio, key, what, w, mon):
     if math.isfinite(ratio) and ratio > _WORST.get(wk, 0.0):
         _WORST[wk] = ratio
     if _CAL is not None:
-        _CAL.append((wk, ratio, _LAST[0], _LAST[1]))
+        _CAL.append((wk, ratio, _LAST[0], _LAST[1], w if ratio > 30 else None))
     return ctx.check(ratio <= TOL[name], key, f"{what}: error = {ratio:.3g} units, allowed {TOL[name]:g} units "
                      f"(unit = rtol*a*(1+n_rev)^2/(1-e))", w, mon=mon)
 
@@ -354,7 +366,7 @@ def rel_compose(ctx, spec, x0, t0, t1, t2, how="uniform", ttype="float"):
     y12 = _propagate(ctx, spec, t1, t2, y01, p + "compose", w, mon, ttype)
     if y12 is None:
         return False
-    ur, uv, nrev, e = _unit(x0, t2 - t0)
+    ur, uv, nrev, e = _unit(x0, t2 - t0, spec=spec)
     r = _ratio(y12, y02, 2 * ur, 2 * uv)
     key = p + ("compose-split" if how == "uniform" else "compose-split-at-end")
     _close(ctx, "compose", r, key, f"{spec['method']} Phi(t0->t2) vs Phi(t1->t2)oPhi(t0->t1), split '{how}' at t0+{t1 - t0:.6g} of {t2 - t0:.6g} s: "
@@ -391,7 +403,7 @@ def rel_batch(ctx, spec, X, t0, t2, layout="C", ttype="float"):
         yk = _propagate(ctx, spec, t0, t2, X[:, k], p + "batch", w, mon, ttype)
         if yk is None:
             return False
-        ur, uv, nrev, e = _unit(X[:, k], t2 - t0)
+        ur, uv, nrev, e = _unit(X[:, k], t2 - t0, spec=spec)
         f = 2.0 * math.sqrt(K_)  # RMS error norm over 6K components: one column may take sqrt(K) of the budget
         r = _ratio(Y[:, k], yk, f * ur, f * uv)
         if not _close(ctx, "batch_vs_single", r, p + "batch-column-differs", f"{spec['method']} column {k} of a K={K_} ({layout}) batch over {t2 - t0:.6g} s "
@@ -427,7 +439,7 @@ def rel_bulk(ctx, spec, X, times, ttype="float", container="list", te=None):
             if yk is None:
                 return False
             got = out[:, i] if X.ndim == 1 else out[:, k, i]
-            ur, uv, nrev, e = _unit(xk, times[i + 1] - times[0], dense=True)
+            ur, uv, nrev, e = _unit(xk, times[i + 1] - times[0], dense=True, spec=spec)
             f = 2.0 * math.sqrt(nk)
             r = _ratio(got, yk, f * ur, f * uv)
             name = "event_restart" if ev else "bulk_vs_single"
@@ -498,7 +510,7 @@ def rel_event(ctx, spec, x0, t0, te, t2, ttype="float"):
         return False
     if not ctx.check(ye.shape == (6,), p + "event-shape", f"propagate with a no-op event returned shape {ye.shape}", w, mon=mon):
         return True
-    ur, uv, nrev, e = _unit(x0, t2 - t0, dense=True)
+    ur, uv, nrev, e = _unit(x0, t2 - t0, dense=True, spec=spec)
     r = _ratio(ye, y, 2 * ur, 2 * uv)
     _close(ctx, "event_restart", r, p + "event-restart-differs", f"{spec['method']} propagate over {t2 - t0:.6g} s with a no-op terminal event at t0+{te - t0:.6g} s "
            f"differs from the uninterrupted propagation by {np.linalg.norm(ye[:3] - y[:3]):.3e} km", w, mon)
@@ -516,7 +528,7 @@ def rel_epoch(ctx, spec, x0, t0, t2, shift_s):
     yb = _propagate(ctx, spec_b, t0 - shift_s, t2 - shift_s, x0, "epoch", w, mon)
     if ya is None or yb is None:
         return False
-    ur, uv, nrev, e = _unit(x0, t2 - t0)
+    ur, uv, nrev, e = _unit(x0, t2 - t0, spec=spec)
     r = _ratio(yb, ya, 2 * ur, 2 * uv)
     _close(ctx, "epoch_resplit", r, "epoch-resplit-differs", f"{spec['method']} SpecialPerturbations({spec['deg']}x{spec['ord']}, third={spec['third']}) over {t2 - t0:.6g} s: "
            f"start JD shifted by {shift_s:+g} s and times by {-shift_s:+g} s changes the result by {np.linalg.norm(yb[:3] - ya[:3]):.3e} km", w, mon)
@@ -652,7 +664,7 @@ def _sp_spec(rng, quick, reduce=False):
     else:
         jd = day + rng.random()
     return {"model": "sp", "method": rng.choice(METHODS), "jd": jd, "deg": deg, "ord": orde, "third": third, "srp": srp, "gr": gr,
-            "ratio": rng.choice([0.02, 0.1, 1.0]) if srp else rng.choice([0.0, 0.02])}
+            "ratio": rng.choice([0.01, 0.02, 0.02, 0.1, 1.0]) if srp else rng.choice([0.0, 0.02])}
 
 
 def _shift(rng):
@@ -760,12 +772,15 @@ def _sp_case(ctx, rng, i):
     spec = _sp_spec(rng, q, reduce=(rel == "reduces"))
     x0 = _rand_orbit(rng)
     t0 = rng.choice([0.0, 0.0, float(rng.randrange(0, 86400)), float(rng.randrange(0, 7 * 86400))])
+    per = K.period(x0, MU)
     if q:
         dt = float(rng.choice([30, 60, 120, 300, 600, rng.randrange(20, 900)]))
     else:
         dt = float(rng.choice([60, 300, 600, 1800, 3600, rng.randrange(20, 7200), rng.randrange(20, 7200)]))
-        if rng.random() < 0.02:
+        dt = min(dt, (1.0 if spec["deg"] <= 4 else 0.3) * per)  # cost ~ revolutions x degree^2
+        if rng.random() < 0.03 and spec["deg"] <= 4 and rel in ("epoch", "compose", "reduces"):
             dt = rng.choice([21600.0, 43200.0, 86400.0])
+    dt = max(dt, 20.0)
     t2 = _end(t0, dt)
     done = False
     if rel == "epoch":
@@ -784,7 +799,7 @@ def _sp_case(ctx, rng, i):
         kk = rng.choice([2, 3, 3, 5] if q else [1, 2, 3, 5, 7, 13])
         X = np.column_stack([x0] + [_rand_orbit(rng) for _ in range(kk - 1)])
         if kk >= 5:
-            t2 = _end(t0, min(dt, 300.0 if q else 1800.0))
+            t2 = _end(t0, min(dt, 300.0 if q else 900.0, 0.2 * per))
         done = rel_batch(ctx, spec, X, t0, t2, rng.choice(["C", "F", "strided"]))
         key = (rel, json.dumps(spec, sort_keys=True), _rnd(X), t0, t2)
         smp = {"relation": "SP batch vs single", "spec": spec, "K": kk, "t0": t0, "dt": t2 - t0}
